@@ -186,7 +186,7 @@ def harness_headers():
     return out
 
 
-def build_bin(flavour, name, sources, extra_cxx=(), extra_ld=(), opt=None):
+def build_bin(flavour, name, sources, extra_cxx=(), extra_ld=(), opt=None, whole_archive=False):
     """compile harness sources (paths relative to harness/) and link with the flavour's libmasa.a"""
     fl = FLAVOURS[flavour]
     libd = build_lib(flavour)
@@ -194,7 +194,7 @@ def build_bin(flavour, name, sources, extra_cxx=(), extra_ld=(), opt=None):
     cxx = list(fl["cxx"])
     if opt:  # harness-side optimisation (the oracle is ours; the library keeps its own flags)
         cxx = [opt if f in ("-O0", "-O1", "-O2") else f for f in cxx]
-    hkey = _sha(srcs + harness_headers(), name + " ".join(cxx) + " ".join(extra_cxx) + " ".join(extra_ld))
+    hkey = _sha(srcs + harness_headers(), name + " ".join(cxx) + " ".join(extra_cxx) + " ".join(extra_ld) + str(whole_archive))
     bd = os.path.join(libd, "bin-" + hkey)
     exe = os.path.join(bd, name)
     with open(os.path.join(libd, "bin-%s.lock" % hkey), "w") as lk:
@@ -219,7 +219,7 @@ def build_bin(flavour, name, sources, extra_cxx=(), extra_ld=(), opt=None):
         if any(r for r, _ in res):
             raise BuildError("harness build failed (%s/%s): see %s\n%s" % (flavour, name, log, open(log, errors="replace").read()[-4000:]))
         tmp = exe + ".tmp"
-        cmd = [CXX] + fl["ld"] + ["-o", tmp] + [o for _, o in res] + [os.path.join(libd, "libmasa.a")] + list(extra_ld) + ["-lquadmath", "-lm"]
+        cmd = [CXX] + fl["ld"] + ["-o", tmp] + [o for _, o in res] + (["-Wl,--whole-archive", os.path.join(libd, "libmasa.a"), "-Wl,--no-whole-archive"] if whole_archive else [os.path.join(libd, "libmasa.a")]) + list(extra_ld) + ["-lquadmath", "-lm"]
         if _run(cmd, log):
             raise BuildError("harness link failed (%s/%s): see %s\n%s" % (flavour, name, log, open(log, errors="replace").read()[-4000:]))
         os.rename(tmp, exe)
